@@ -688,6 +688,47 @@ def extract(repo: str):
         emit(f"def {n} : List (List PyExn) := " + lean_list([lean_list([f".{c}" for c in t]) for t in tuples]))
         js["except"][n] = tuples
 
+    # StreamTransport.read: its `try` statements in source order, each with its clauses (classes, library error raised).
+    # The stream model maps exceptions through THESE blocks, so merging or reordering clauses with the same effect
+    # regenerates to tables under which the model and its theorems still say the same thing.
+    def raise_name(h):
+        body = [b for b in h.body if not (isinstance(b, ast.Expr) and isinstance(getattr(b, "value", None), ast.Constant))]
+        if len(body) == 1 and isinstance(body[0], ast.Raise) and body[0].exc is not None:
+            e = body[0].exc
+            if isinstance(e, ast.Call) and isinstance(e.func, ast.Name):
+                return e.func.id
+            if isinstance(e, ast.Name):
+                return e.id
+        return "other"
+
+    def handler_classes(h):
+        t = h.type
+        if t is None:
+            return ["BaseException"]
+        elts = t.elts if isinstance(t, ast.Tuple) else [t]
+        out = []
+        for e in elts:
+            name = e.id if isinstance(e, ast.Name) else (e.attr if isinstance(e, ast.Attribute) else None)
+            if name is None:
+                raise ExtractError("except clause with a computed class")
+            out.append(name)
+        return out
+
+    blocks = []
+    for node in fn_ast(getattr(st.read, "__func__", st.read)).body:
+        if isinstance(node, ast.Try):
+            block = []
+            for h in node.handlers:
+                cs = handler_classes(h)
+                for c in cs:
+                    if c not in PYEXN:
+                        raise ExtractError(f"excStreamReadBlocks: exception class {c} outside the vocabulary")
+                block.append((cs, raise_name(h)))
+            blocks.append(block)
+    emit("def excStreamReadBlocks : List (List (List PyExn × String)) := " + lean_list(
+        [lean_list(["(" + lean_list([f".{c}" for c in cs]) + ", " + lean_str(nm) + ")" for cs, nm in b]) for b in blocks]))
+    js["except"]["excStreamReadBlocks"] = [[[cs, nm] for cs, nm in b] for b in blocks]
+
     # subclass relation over the vocabulary, from the live classes
     import asyncio
     import marshmallow
